@@ -161,6 +161,15 @@ def build(r, pos, nl):
     elif pos == "include-file-expr":
         ln = main.add('<%include file="${boom(\'T\')}"/>' + nl)
         chain = [(M, ln)]
+    elif pos in ("module-function", "module-function-ns"):
+        # a function defined in a <%! %> block, called from the body; the template may also carry a namespace tag
+        # (which adds generated code between the module block and the render functions)
+        if pos == "module-function-ns":
+            main.add('<%namespace name="m_" module="os.path"/>' + nl)
+        lb = main.add("<%!" + nl + "    def mfn_(a):" + nl + "        x_ = a" + nl + "        boom('T')" + nl + "        return x_" + nl + "%>" + nl) + 3
+        filler(r, main, r.randint(0, 2))
+        lc = main.add("call ${mfn_(1)}" + nl)
+        chain = [(M, lc), (M, lb)]
     elif pos in ("code-line", "module-line"):
         n = r.randint(2, 5)
         k = r.randrange(n)
@@ -213,6 +222,24 @@ def build(r, pos, nl):
         main.add('<%def name="g1()" decorator="rdec">' + nl + "never" + nl + "</%def>" + nl)
         chain = [(M, ln)]
         T["pyframe"] = "decorate"
+    elif pos == "relay-back":
+        # main -> a def of the other template -> back into a def of main, which raises: the frames alternate between
+        # the two templates, and each carries its own template's source
+        other = Doc(nl)
+        filler(r, other, r.randint(0, 3))
+        O = "/sub/other.html"
+        main.parts.insert(0, '<%namespace name="ns" file="/sub/other.html"/>' + nl)
+        main.add('<%def name="boomer()">' + nl + "before" + nl)
+        lb = main.add("${boom('T')}" + nl)
+        main.add("</%def>" + nl)
+        filler(r, main, r.randint(0, 2))
+        lm = main.add("relay: ${ns.relay(boomer)}" + nl)
+        other.add('<%def name="relay(f)">' + nl + "in relay" + nl)
+        lo = other.add("${f()}" + nl)
+        other.add("</%def>" + nl)
+        chain = [(M, lm), (O, lo), (M, lb)]
+        filler(r, other, r.randint(0, 2))
+        T["templates"][O] = other.text()
     elif pos in ("include", "namespace-def", "inherit-base", "inherit-child"):
         other = Doc(nl)
         filler(r, other, r.randint(0, 3))
@@ -249,9 +276,9 @@ def build(r, pos, nl):
 
 
 # (a raise in a <%! %> block happens while the Template is constructed, before it can be rendered: out of scope)
-POSITIONS = ["expr", "expr-multiline", "control", "for-iterable", "for-iterable-loop", "loop-body", "elif-test", "while-test", "call-expr", "tag-attr",
+POSITIONS = ["expr", "expr-multiline", "control", "module-function", "module-function-ns", "for-iterable", "for-iterable-loop", "loop-body", "elif-test", "while-test", "call-expr", "tag-attr",
              "include-file-expr", "code-line", "def", "nested-def", "call-body", "block", "anon-block",
-             "filter", "decorator", "include", "namespace-def", "inherit-base", "inherit-child"]
+             "filter", "decorator", "relay-back", "include", "namespace-def", "inherit-base", "inherit-child"]
 PATHS = ["put_string", "file-lookup", "moddir-first", "moddir-reload", "moddir-relative", "modfile-relative"]
 
 
@@ -446,6 +473,7 @@ WARNERS = {
     "invalid-escape": ("${len('\\d')}", SyntaxWarning),
     "code-is-literal": ("<%\n    wq_ = 1\n    wr_ = (wq_ is 1)\n%>", SyntaxWarning),
     "module-warn": ("<%!\n    mw_ = 1\n    warn_here('planted-warning')\n%>", UserWarning),
+    "module-warn-ns": ("<%namespace name=\"m_\" module=\"os.path\"/>\n<%!\n    mw_ = 1\n    warn_here('planted-warning')\n%>", UserWarning),
     "control-is-literal": ("% if 1 is 1:\nx\n% endif", SyntaxWarning),
     "for-iterable-escape": ("% for wi_ in ('\\d',):\n${wi_}\n% endfor", SyntaxWarning),
     "for-iterable-escape-loop": ("% for wi_ in ('\\d',):\n${loop.index}${wi_}\n% endfor", SyntaxWarning),
@@ -461,7 +489,7 @@ def run_warning_case(r, wname, action, path, nl, res):
     filler(r, d0, r.randint(0, 4))
     construct = construct.replace("\n", nl)
     ln = d0.add(construct + nl)
-    off = {"is-literal": 0, "invalid-escape": 0, "code-is-literal": 2, "module-warn": 2, "def-body-is-literal": 2}.get(wname, 0)
+    off = {"is-literal": 0, "invalid-escape": 0, "code-is-literal": 2, "module-warn": 2, "module-warn-ns": 3, "def-body-is-literal": 2}.get(wname, 0)
     line = ln + off
     filler(r, d0, r.randint(0, 2))
     text = d0.text()
